@@ -965,10 +965,11 @@ def describe(prop):
                         "increase the loss'); distinct = distinct (strategy, per-trial outcome pattern of the call, "
                         "pattern of the previous call); non-trivial = the run contains a reject, raise or exhausted call",
                 "fault_kinds": ["solver-raise (5 exception types)", "solver-negate", "solver-overshoot", "solver-zero",
-                                "solver-noise", "solver-scripted (prescribed loss sequence)"],
+                                "solver-noise", "solver-huge (trial loss overflows to +inf)", "solver-scripted (prescribed loss sequence)",
+                                "natural solver failure (real Cholesky/LSTSQ raising)"],
                 "real": common_real, "stub": stub,
                 "assumptions": ["harness loss = sum_i kernel_i(|r_i|^2) from the model output (weights do not enter the "
-                                "loss, as in the library)", "a trial with exactly equal loss may be kept or rejected",
+                                "loss, as in the library)", "a trial with exactly equal loss may be kept or rejected", "+inf trial losses are judged (worse than anything), NaN ones end the run without a verdict",
                                 "the damping oracle abstains when the step quality is non-finite or within 1e-9 (1e-3 in "
                                 "float32) of a threshold; non-finite trial losses end the run without a verdict"]}
     return {"rule": "same simulated optimizer as C08 (float64 only, <= 6 calls), plus a wider configuration spread: weights "
